@@ -689,7 +689,12 @@ class LiteralUnmarshaller(AbstractUnmarshaller[LiteralT], tp.Generic[LiteralT]):
     def __call__(self, val: tp.Any) -> LiteralT:
         if self._ismember(val):
             return val
-        decoded = serdes.load(val)
+        # Text is text, whatever it was carried in: check the decoded text before
+        #   evaluating it, so `b"null"` and `"null"` are treated alike.
+        text = serdes.decode(val)
+        if self._ismember(text):
+            return text
+        decoded = serdes.load(text)
         if self._ismember(decoded):
             return decoded  # type: ignore[return-value]
 
